@@ -61,7 +61,7 @@ def biScanP (limit : Option Int) (u : Nat) (du : Int) : List (Nat × Int × Nat)
       biScanP limit u du r { st with f := f', best := best', common := common' }
 
 /-- the `while (true)` loop; `none` = the "reached limit" exit from inside the loop -/
-def biLoopP (adjE : Array (List (Nat × Int × Nat))) (pick : List Nat → Nat) (limit : Option Int) :
+def biLoopP (adjE : Array (List (Nat × Int × Nat))) (pick : Pick) (limit : Option Int) :
     Nat → BiStateP → Option BiStateP
   | 0, st => some st
   | fuel + 1, st =>
@@ -72,7 +72,7 @@ def biLoopP (adjE : Array (List (Nat × Int × Nat))) (pick : List Nat → Nat) 
        | _, _, _ => false)
     if stop then some st
     else
-      let u := pick st.f.toF.minNodes
+      let u := pick fuel st.f.toF.minNodes
       match st.f.dist[u]! with
       | none => some st
       | some du =>
@@ -94,7 +94,7 @@ def tracePath (f : FrontierP) : Nat → Nat → List Nat → Option (List Nat)
 
 /-- `bidirectional_signed_dijkstra` for `s ≠ t`: `some (weight, edge set)` or `none` (not found / beyond the limit /
 duplicate edge).  `wOf` = the weight map. -/
-def biSearch (adjE : Array (List (Nat × Int × Nat))) (pick : List Nat → Nat) (wOf : Nat → Int) (limit : Option Int)
+def biSearch (adjE : Array (List (Nat × Int × Nat))) (pick : Pick) (wOf : Nat → Int) (limit : Option Int)
     (s t : Nat) : Option (Int × List Nat) :=
   match biLoopP adjE pick limit (2 * adjE.size + 2)
       { f := FrontierP.init adjE.size s, b := FrontierP.init adjE.size t, best := none, common := 0 } with
